@@ -33,7 +33,9 @@ After each search the whole class database is compared with the independent dict
 """
 import contextlib
 import multiprocessing
+import random
 import sys
+import zlib
 from collections import Counter
 
 import deal
@@ -41,6 +43,7 @@ import deal
 import comb_spec_searcher.class_db as class_db_mod
 import comb_spec_searcher.rule_db.base as base_mod
 import comb_spec_searcher.rule_db.forest as forest_mod
+import comb_spec_searcher.tree_searcher as tree_searcher
 from comb_spec_searcher import CombinatorialSpecificationSearcher
 from comb_spec_searcher.exception import (
     ExceededMaxtimeError,
@@ -320,7 +323,7 @@ def _pre_add(self, start, ends, rule):
     empties = tuple(truly_empty(c) for c in children)
     if any(empties):
         COUNTS["add:with-empty-child"] += 1
-    if _EXPANDED_FOR.get(id(rule), pkey) != pkey:
+    if _EXPANDED_FOR.get(id(rule), (rule, pkey))[1] != pkey:
         COUNTS["add:foreign-parent"] += 1
     frame.update(
         possibly_empty=bool(rule.possibly_empty), ends=tuple(ends), empties=empties,
@@ -449,7 +452,7 @@ def installed():
 
     def _expand_class_with_strategy(self, comb_class, strategy_generator, label=None, initial=False):
         for triple in _real["expand"](self, comb_class, strategy_generator, label, initial):
-            _EXPANDED_FOR[id(triple[2])] = comb_class.key()
+            _EXPANDED_FOR[id(triple[2])] = (triple[2], comb_class.key())  # the rule is kept alive: ids stay unique
             yield triple
 
     B.add, F.add, B._clean_labels, C.get_label, C.get_class = base_add, forest_add, _clean_labels, get_label, get_class
@@ -467,34 +470,44 @@ def installed():
 # --------------------------------------------------------------------------------------------------------------
 
 EXTRA_LEVELS = 2
+SEED = [0]
 CSS_MODULE = sys.modules[CombinatorialSpecificationSearcher.__module__]
 
 
 class FakeClock:
     """Deterministic stand-in for the `time` module inside comb_spec_searcher.comb_spec_searcher (harness process only).
-    eager : time advances by one per reading made in `_expand_classes_for` and stands still elsewhere, so every time
-            slice is one work packet and the search stops at the first packet after which a specification exists;
-    coarse: time advances by one per reading, so the first slice is one packet and the following ones 200 packets
-            (practically: the queue is drained before the specification is looked for again)."""
+    eager : time advances by one tick per reading made in `_expand_classes_for` and stands still elsewhere, so every
+            time slice is one work packet and the search stops at the first packet after which a specification exists;
+    coarse: time advances by one tick per reading, so the first slice is one packet and the following ones 200
+            packets (practically: the queue is drained before the specification is looked for again).
+    A tick is a millisecond (the time the library then grants to the minimisation of the proof tree stays tiny)."""
+
+    TICK = 0.001
 
     def __init__(self, mode):
         self.mode = mode
-        self.now = 0.0
+        self.ticks = 0
 
     def time(self):
         if self.mode == "coarse" or sys._getframe(1).f_code.co_name == "_expand_classes_for":
-            self.now += 1.0
-        return self.now
+            self.ticks += 1
+        return self.ticks * self.TICK
 
 
 @contextlib.contextmanager
-def clock(mode):
+def clock(mode, seed=0):
+    """Deterministic clock for the searcher and a seeded generator for the random proof-tree choice of
+    comb_spec_searcher.tree_searcher (both rebound in the harness process only, restored afterwards)."""
     real = CSS_MODULE.time
+    rng = random.Random(seed)
+    real_choice, real_shuffle, real_ts_time = tree_searcher.choice, tree_searcher.shuffle, tree_searcher.time
     CSS_MODULE.time = FakeClock(mode)
+    tree_searcher.choice, tree_searcher.shuffle, tree_searcher.time = rng.choice, rng.shuffle, FakeClock("coarse")
     try:
         yield
     finally:
         CSS_MODULE.time = real
+        tree_searcher.choice, tree_searcher.shuffle, tree_searcher.time = real_choice, real_shuffle, real_ts_time
 
 
 def run_case(case):
@@ -517,8 +530,8 @@ def run_case(case):
             start, PACKS[pack_name](), ruledb=RULEDBS[db_name](), expand_verified=expand_verified)
         silence()
         try:
-            with clock(schedule):
-                css.auto_search(max_expansion_time=10**6)
+            with clock(schedule, zlib.crc32(repr(case).encode()) ^ SEED[0]):
+                css.auto_search(max_expansion_time=10**4)
         except (SpecificationNotFound, ExceededMaxtimeError):
             pass
         try:
@@ -543,7 +556,8 @@ def run_case(case):
     return None, info
 
 
-def _worker(cases):
+def _worker(args):
+    cases, SEED[0] = args
     silence()
     COUNTS.clear()
     viols, infos = [], []
@@ -592,7 +606,7 @@ def run(tier, seed):
     chunks = [cases[i::nchunks] for i in range(nchunks)]
     ctx = multiprocessing.get_context("fork")
     with ctx.Pool(NPROC) as pool:
-        results = pool.map(_worker, chunks, chunksize=1)
+        results = pool.map(_worker, [(c, seed) for c in chunks], chunksize=1)
     counts = Counter()
     viols, infos = [], []
     for v, i, c in results:
